@@ -163,6 +163,10 @@ Cfgs ==
    cmt   |-> [alphabet |-> Ch({"/", "*", "a", NL, " "}), errpat |-> "any",
               terms |-> <<T(Lit(<<"a">>), {1}), T(Lit(<<"/">>), {1}), T(Lit(<<"*">>), {1})>>,
               modes |-> <<Mode(TRUE, TRUE, <<<<"/", "/">>>>, << <<<<"/", "*">>, <<"*", "/">>>> >>, FALSE, {}, {})>>],
+   \* C-style comments in a grammar that has no terminals "/" and "*" (as in most real grammars)
+   cmt0  |-> [alphabet |-> {<<"/", "*">>, <<"*", "/">>, <<"/">>, <<"*">>, <<"a">>}, errpat |-> "any",
+              terms |-> <<T(Lit(<<"a">>), {1})>>,
+              modes |-> <<Mode(TRUE, TRUE, <<<<"/", "/">>>>, << <<<<"/", "*">>, <<"*", "/">>>> >>, FALSE, {}, {})>>],
    xml   |-> [alphabet |-> {<<"<", "!", "-", "-">>, <<"-">>, <<">">>, <<"a">>}, errpat |-> "any",
               terms |-> <<T(Lit(<<"a">>), {1}), T(Lit(<<"-">>), {1}), T(Lit(<<">">>), {1})>>,
               modes |-> <<Mode(TRUE, TRUE, <<>>, << <<<<"<", "!", "-", "-">>, <<"-", "-", ">">>>> >>, FALSE, {}, {})>>],
